@@ -780,6 +780,12 @@ def pncbo(op, ifile1, ifile2, coordkeys=None, verbose=0):
             # masks of the operands (and of masked-array domain errors)
             # are kept; non-finite results are masked in addition
             outval = eval('in1var[...] %s in2var[...]' % op)
+            if np.shape(outval) != np.shape(in1var):
+                # the result lives on the dimensions of the first file
+                raise ValueError(
+                    ('%s: shape %s of the second file cannot be broadcast ' +
+                     'to shape %s of the first') %
+                    (k, np.shape(in2var), np.shape(in1var)))
             # (numpy.ma.masked_invalid fails for masked scalar variables)
             outval = np.ma.masked_where(
                 ~np.isfinite(np.ma.getdata(outval)), outval)
